@@ -34,8 +34,8 @@ const (
 // cells returns the fixed enumeration: 9 events x 4 states x 2 delayed
 // directions = 72 cells, the "write-blocked" state with the 5 events the relay
 // can observe there x 2 = 10 cells, 2 cells ending the session before the
-// preface was forwarded and 3 cells ending it while the upstream TLS handshake
-// is still in progress: 87 cells.
+// preface was forwarded and 7 cells ending it while the upstream TLS handshake
+// is still in progress or failing.
 func cells() []h2term.Cell {
 	var cs []h2term.Cell
 	dirs := []string{"c2s", "s2c"}
@@ -69,6 +69,21 @@ func caseList(batch string) []h2term.Cell {
 	add := func(rep, i int) {
 		c := all[i]
 		c.Idx = rep*128 + i
+		// Stream processors installed in the relay: a fixed third of the cells each run without,
+		// with a pass-through h2.Processor pair, and with the gRPC adapter + pass-through gRPC
+		// processors (idle and mid-stream cells only: the adapter re-frames DATA by message, the
+		// other states count frames; they get the h2 pair instead). Rotates with the replica.
+		if c.Delay != "-" {
+			switch (i + rep) % 3 {
+			case 1:
+				c.Proc = "h2"
+			case 2:
+				c.Proc = "h2"
+				if c.State == "idle" || c.State == "mid-stream" {
+					c.Proc = "grpc"
+				}
+			}
+		}
 		out = append(out, c)
 	}
 	kind, ks, _ := strings.Cut(batch, "-")
@@ -169,6 +184,7 @@ func runCell(r *vh.Run, c h2term.Cell) {
 		r.Eval(1)
 		r.Class(c.Class())
 		r.Count("cells_evaluated", 1)
+		r.Count("processors:"+map[string]string{"": "none", "h2": "h2-pass-through", "grpc": "grpc-adapter"}[c.Proc], 1)
 		r.Count("cell_wall_ms", res.WallMS)
 		if res.Returned {
 			r.Count("proxy_returned", 1)
